@@ -3,6 +3,7 @@ package props
 import (
 	"fmt"
 	"sort"
+	"strings"
 	"testing"
 	"time"
 
@@ -346,4 +347,117 @@ func TestC12_Model(t *testing.T) {
 
 func TestC12_Timed(t *testing.T) {
 	rapid.Check(t, lruProperty([]string{"boundary"}))
+}
+
+// ---- the search-result cache built on the LRU (internal/cache/search_cache.go) ----------
+
+type scEntry struct {
+	key string
+	val []cache.SearchResult
+}
+
+// scKey is the request identity the statement implies: the query up to letter case, and
+// every option field (two requests that differ in any of them are different requests).
+func scKey(q string, o cache.SearchOptions) string {
+	return fmt.Sprintf("%q|%+v", strings.ToLower(q), o)
+}
+
+func TestC12_SearchCache(t *testing.T) {
+	rec := stat.For("C12")
+	rec.Rule("search-result cache (SearchCache over the LRU): capacity 1-4, state machine put(query, options, results) / get / invalidate / enable(on|off) / size / stats over 4 queries x case variants x 3 option sets, compared with a reference LRU keyed by (query up to case, options). Oracle: get returns exactly the stored list (or a miss), never more than capacity entries, LRU victim, nothing stored or served while disabled, empty result lists are not stored.")
+	rapid.Check(t, func(t *rapid.T) {
+		capacity := rapid.IntRange(1, 4).Draw(t, "cap")
+		sc := cache.NewSearchCache(capacity, 0)
+		var model []scEntry // index 0 = most recently used
+		find := func(k string) int {
+			for i := range model {
+				if model[i].key == k {
+					return i
+				}
+			}
+			return -1
+		}
+		front := func(i int) {
+			e := model[i]
+			copy(model[1:i+1], model[:i])
+			model[0] = e
+		}
+		enabled := true
+		queries := []string{"find files", "git commit", "tar", "list all"}
+		opts := []cache.SearchOptions{{Limit: 5}, {Limit: 10}, {Limit: 5, UseNLP: true, Platforms: []string{"linux"}}}
+		draw := func(t *rapid.T) (string, cache.SearchOptions) {
+			q := rapid.SampledFrom(queries).Draw(t, "q")
+			if rapid.Bool().Draw(t, "upper") {
+				q = strings.ToUpper(q)
+			}
+			return q, rapid.SampledFrom(opts).Draw(t, "o")
+		}
+		n := 0
+		var steps []string
+		evictions := 0
+		t.Repeat(map[string]func(*rapid.T){
+			"put": func(t *rapid.T) {
+				q, o := draw(t)
+				n++
+				var res []cache.SearchResult
+				for i := rapid.IntRange(0, 3).Draw(t, "nres"); i > 0; i-- {
+					res = append(res, cache.SearchResult{Command: fmt.Sprintf("c%d-%d", n, i), Score: float64(n)})
+				}
+				sc.Put(q, o, res)
+				steps = append(steps, fmt.Sprintf("put(%q,%d results)", q, len(res)))
+				if !enabled || len(res) == 0 {
+					return
+				}
+				k := scKey(q, o)
+				if i := find(k); i >= 0 {
+					model[i].val = res
+					front(i)
+				} else {
+					model = append([]scEntry{{k, res}}, model...)
+					if len(model) > capacity {
+						model = model[:capacity]
+						evictions++
+					}
+				}
+			},
+			"get": func(t *rapid.T) {
+				q, o := draw(t)
+				got, ok := sc.Get(q, o)
+				steps = append(steps, fmt.Sprintf("get(%q)=%v", q, ok))
+				i := find(scKey(q, o))
+				want := enabled && i >= 0
+				if ok != want {
+					t.Fatalf("get(%q, %+v) found=%v, reference says %v (enabled=%v); steps=%v", q, o, ok, want, enabled, steps)
+				}
+				if ok {
+					if fmt.Sprint(got) != fmt.Sprint(model[i].val) {
+						t.Fatalf("get(%q) returned %v, stored %v; steps=%v", q, got, model[i].val, steps)
+					}
+					front(i)
+				}
+			},
+			"invalidate": func(t *rapid.T) {
+				sc.Invalidate()
+				model = nil
+				steps = append(steps, "invalidate")
+			},
+			"enable": func(t *rapid.T) {
+				enabled = rapid.Bool().Draw(t, "on")
+				sc.Enable(enabled)
+				if sc.IsEnabled() != enabled {
+					t.Fatalf("IsEnabled()=%v after Enable(%v)", sc.IsEnabled(), enabled)
+				}
+				steps = append(steps, fmt.Sprintf("enable(%v)", enabled))
+			},
+			"": func(t *rapid.T) {
+				if sc.Size() != len(model) || sc.Size() > capacity {
+					t.Fatalf("size %d, reference %d, capacity %d; steps=%v", sc.Size(), len(model), capacity, steps)
+				}
+				if s := sc.Stats(); s.Size != len(model) || s.Capacity != capacity {
+					t.Fatalf("stats %+v, reference size %d capacity %d; steps=%v", s, len(model), capacity, steps)
+				}
+			},
+		})
+		rec.Case(evictions > 0, map[string]any{"search_cache": true, "cap": capacity, "steps": steps}, "search-cache")
+	})
 }
